@@ -5,13 +5,14 @@ package mqtt
 // C08 — broker-side subscriptions converge to the app's Subscribe/Unsubscribe calls.
 
 import (
+	"fmt"
 	"testing"
 
 	"pgregory.net/rapid"
 )
 
 var e4OptsC08 = e4GenOpts{MaxSteps: 12, QoSWeights: []int{2, 2, 2}, SubWeight: 22, MaxFaults: 5, AllowRefuse: false, Outages: true, PreConnect: true,
-	FilterPool: []string{"a", "a", "b", "a/+", "c/#"}, CutTypes: []int{rtConnect, rtPublish, rtSubscribe, rtSubscribe, rtUnsubscribe, rtUnsubscribe}, MaxConn: 4}
+	FilterPool: []string{"a", "a", "b", "a/+", "c/#", c08Long("x"), c08Long("y"), c08Long("z/+"), c08Long("w/#")}, CutTypes: []int{rtConnect, rtPublish, rtSubscribe, rtSubscribe, rtUnsubscribe, rtUnsubscribe}, MaxConn: 4}
 
 func c08Nontrivial(r *e4Result) (bool, []string) {
 	// >= 1 reconnect after >= 1 acknowledged subscribe, and the history has a repeat, an unsubscribe, or a pending request at the reconnect
@@ -70,6 +71,13 @@ func TestVerifC08_Subscriptions(t *testing.T) {
 	vRun(t, "C08", vOpts{CurFile: true, ReplayReps: 25}, func(rt *rapid.T) e4Case {
 		c := e4GenCase(rt, e4OptsC08)
 		c.Cfg.SessionKept = rapid.Bool().Draw(rt, "kept2")
+		if c.Cfg.SessionKept && !c.Cfg.CleanSession && rapid.Bool().Draw(rt, "loseOnce") {
+			// a broker that keeps sessions but loses this one once (restart): re-subscription on that connection only
+			c.Faults = append(c.Faults, e4Fault{Kind: "loseSession", Conn: rapid.IntRange(2, 3).Draw(rt, "loseAt")})
+			if rapid.Bool().Draw(rt, "cutResub") {
+				c.Faults = append(c.Faults, e4Fault{Kind: "cutType", Conn: c.Faults[len(c.Faults)-1].Conn, Type: rtSubscribe, Nth: rapid.IntRange(1, 3).Draw(rt, "cutNth"), After: rapid.Bool().Draw(rt, "cutAfter")})
+			}
+		}
 		// most histories get 1..2 reconnects placed after a subscription was acknowledged (settle, then cut)
 		nrec := rapid.IntRange(0, 2).Draw(rt, "reconnectsAfterAck")
 		for k := 0; k < nrec; k++ {
@@ -141,4 +149,107 @@ func TestVerifC08_Timeouts(t *testing.T) {
 			return nt || dropped, labels
 		})
 	})
+}
+
+// TestVerifC08_Restore: the restore path by construction.  Several subscriptions of assorted sizes (a few bytes up to
+// some hundred) are established, then the broker loses the session once or twice and the re-subscription pass itself is
+// interrupted at a chosen SUBSCRIBE (before or after the broker saw it), with further calls arriving meanwhile.
+func TestVerifC08_Restore(t *testing.T) {
+	sizes := []int{0, 0, 20, 60, 90, 90, 120, 200, 250}
+	vRun(t, "C08", vOpts{CurFile: true, ReplayReps: 25}, func(rt *rapid.T) e4Case {
+		c := e4Case{Cfg: e4GenConfig(rt)}
+		c.Cfg.SessionKept = true
+		c.Cfg.CleanSession = false
+		c.Cfg.AlwaysResub = rapid.IntRange(0, 5).Draw(rt, "always2") == 0
+		nf := rapid.IntRange(2, 7).Draw(rt, "nFilters")
+		var filters []c05Sub
+		for i := 0; i < nf; i++ {
+			pad := rapid.SampledFrom(sizes).Draw(rt, "pad")
+			f := fmt.Sprintf("r%d", i)
+			for len(f) < pad {
+				f += "/0123456789abcdefghijklmnopqrstuvwxyz"
+			}
+			filters = append(filters, c05Sub{Filter: f, QoS: rapid.IntRange(0, 2).Draw(rt, "fq")})
+		}
+		steps := []e4Step{{Kind: "connect"}}
+		for i := 0; i < len(filters); {
+			n := rapid.IntRange(0, 2).Draw(rt, "perCall")
+			if i+n > len(filters) {
+				n = len(filters) - i
+			}
+			steps = append(steps, e4Step{Kind: "sub", QoS: rapid.IntRange(0, 2).Draw(rt, "mq"), Subs: append([]c05Sub{}, filters[i:i+n]...)})
+			i += n
+			if n == 0 && rapid.Bool().Draw(rt, "skipOne") {
+				i++
+			}
+		}
+		steps = append(steps, e4Step{Kind: "settle"}, e4Step{Kind: "cutNow"})
+		// what the application does while the restore is under way / afterwards
+		nl := rapid.IntRange(0, 4).Draw(rt, "nLater")
+		for i := 0; i < nl; i++ {
+			switch rapid.IntRange(0, 3).Draw(rt, "later") {
+			case 0:
+				steps = append(steps, e4Step{Kind: "unsub", Subs: []c05Sub{filters[rapid.IntRange(0, len(filters)-1).Draw(rt, "uf")]}})
+			case 1:
+				steps = append(steps, e4Step{Kind: "sub", QoS: rapid.IntRange(0, 2).Draw(rt, "lq"), Subs: []c05Sub{{Filter: filters[rapid.IntRange(0, len(filters)-1).Draw(rt, "sf")].Filter, QoS: rapid.IntRange(0, 2).Draw(rt, "sq")}}})
+			case 2:
+				steps = append(steps, e4Step{Kind: "pub", QoS: rapid.IntRange(0, 2).Draw(rt, "pq"), Topic: "t/a"})
+			case 3:
+				steps = append(steps, e4Step{Kind: "sleepBase", Extra: rapid.IntRange(-100, 300).Draw(rt, "delta")})
+			}
+		}
+		if rapid.Bool().Draw(rt, "secondCut") {
+			steps = append(steps, e4Step{Kind: "settle"}, e4Step{Kind: "cutNow"})
+		}
+		n := 0
+		for i := range steps {
+			switch steps[i].Kind {
+			case "pub", "sub", "unsub":
+				n++
+				steps[i].Idx = n
+			}
+		}
+		c.Steps = steps
+		c.Faults = []e4Fault{{Kind: "loseSession", Conn: 2}}
+		if rapid.IntRange(0, 4).Draw(rt, "cutRestore") > 0 {
+			c.Faults = append(c.Faults, e4Fault{Kind: "cutType", Conn: 2, Type: rtSubscribe, Nth: rapid.IntRange(1, nf+1).Draw(rt, "cutNth"), After: rapid.Bool().Draw(rt, "cutAfter")})
+		}
+		if rapid.IntRange(0, 3).Draw(rt, "loseAgain") == 0 {
+			c.Faults = append(c.Faults, e4Fault{Kind: "loseSession", Conn: 3})
+			if rapid.Bool().Draw(rt, "cutRestore2") {
+				c.Faults = append(c.Faults, e4Fault{Kind: "cutType", Conn: 3, Type: rtSubscribe, Nth: rapid.IntRange(1, nf+1).Draw(rt, "cutNth2"), After: rapid.Bool().Draw(rt, "cutAfter2")})
+			}
+		}
+		return c
+	}, func(tb rapid.TB, c e4Case) {
+		e4Check(tb, "C08", c, e4OracleC08, func(r *e4Result) (bool, []string) {
+			lost, interrupted, bytes := false, false, 0
+			lossConn := map[int]bool{}
+			for _, e := range r.Log {
+				if e.Kind == "SESSION-LOST" {
+					lost = true
+					lossConn[e.Conn] = true
+				}
+				if lossConn[e.Conn] && e.Pkt != nil && ((e.Kind == "W-LOST" && e.Pkt.Type == rtSubscribe) || (e.Kind == "B-LOST" && e.Pkt.Type == rtSubAck)) {
+					interrupted = true
+				}
+			}
+			for _, f := range e4FoldSubs(r) {
+				_ = f
+			}
+			for f := range e4FoldSubs(r) {
+				bytes += len(f) + 3
+			}
+			labels := []string{"c08r:lost=" + vB(lost) + ",interrupted=" + vB(interrupted)}
+			if bytes > 256 {
+				labels = append(labels, "c08r:restore>256B")
+			}
+			return lost && interrupted, labels
+		})
+	})
+}
+
+// c08Long: a filter of about 90 bytes (so that a handful of them exceeds any small batching threshold)
+func c08Long(suffix string) string {
+	return "long/0123456789/abcdefghijklmnopqrstuvwxyz/0123456789/abcdefghijklmnopqrstuvwxyz/0123456789/" + suffix
 }
